@@ -203,8 +203,10 @@ def parseLine (h : Hist) (line : String) : Hist :=
   | "O" :: "STORE" :: n :: stream :: idx :: op :: key :: result :: rest =>
     let e : StoreEv := { n := toNat n, stream := stream, idx := toNat idx, op := op, key := unhex key, result := result, val := parseVal rest }
     { h with evs := .store e :: h.evs }
+  -- (the names of a call's fields are canonicalised: under which map key a field of the caller's request reaches the
+  --  upstream is not an observation any property is about — whether the CALLER's map was rewritten is: `REQCMP`)
   | ["O", "CALL", n, stream, k, t0, t1, method, url, hdrs, outcome, dl] =>
-    let e : CallEv := { n := toNat n, stream := stream, k := toNat k, t0 := toInt t0, t1 := toInt t1, method := unhex method, url := unhex url, hdr := parseHdrs hdrs, outcome := outcome, deadline := (dl == "dl") }
+    let e : CallEv := { n := toNat n, stream := stream, k := toNat k, t0 := toInt t0, t1 := toInt t1, method := unhex method, url := unhex url, hdr := (parseHdrs hdrs).map (fun p => (canonicalHeaderKey p.1, p.2)), outcome := outcome, deadline := (dl == "dl") }
     { h with evs := .call e :: h.evs }
   | ["O", "RES", n, t0, t1, kind, status, hdrs, body, be] =>
     let b : Str := if kind == "resp" || kind == "panic" then unhex body else body.toList
